@@ -282,3 +282,118 @@ Lemma INIT_daily : grid_property -> INIT_ok rtm start is_pt.
 Proof. intro HG. unfold INIT_ok. apply HG; lia. Qed.
 
 End Grids.
+
+(* ---------- run-level statements of C15 ---------- *)
+Section Runs.
+Variable strf : N -> N -> comp.
+Variable rtm : N -> N.
+Variable c : cfg.
+Hypothesis strf_nonempty : forall k t, strf k t <> [].
+Variable start : N.
+Variable pt : N -> Prop.
+Hypothesis HNA : NA_ok rtm c start pt.
+Hypothesis Hover : c_over c = true.
+Hypothesis Hfreq : c_freq c <> FDisabled.
+
+Notation lp := (live_path c).
+Notation step := (rot_step strf rtm c).
+Notation run := (rot_run strf rtm c).
+Notation TINV := (TInv c start pt).
+
+(* one run: only writes, positive sizes, non-decreasing timestamps (prev = the previous timestamp) *)
+Fixpoint mono (prev : N) (ops : list rop) : Prop :=
+  match ops with
+  | [] => True
+  | Write _ ts wr _ :: r => prev <= ts /\ 0 < wr /\ mono ts r
+  | Restart _ _ _ :: _ => False
+  end.
+
+Fixpoint last_ts (prev : N) (ops : list rop) : N :=
+  match ops with
+  | [] => prev
+  | Write _ ts _ _ :: r => last_ts ts r
+  | Restart _ _ _ :: r => last_ts prev r
+  end.
+
+Lemma run_tinv : forall ops prev s, Inv c s -> TINV (N.max start prev) s -> mono prev ops ->
+  Inv c (run s ops) /\ TINV (N.max start (last_ts prev ops)) (run s ops).
+Proof.
+  induction ops as [|o ops IH]; intros prev s HI HT HM; cbn [rot_run fold_left last_ts]; auto.
+  destruct o as [id ts wr cnt | wm rm st]; cbn [mono] in HM; [|destruct HM].
+  destruct HM as [M1 [M2 M3]].
+  apply (IH ts); auto.
+  - cbn [rot_step]. apply write_log_inv; auto.
+  - cbn [rot_step]. apply (write_tinv strf rtm c strf_nonempty start pt HNA Hover Hfreq (N.max start prev)); auto. lia.
+Qed.
+
+Lemma mono_app : forall a b prev, mono prev (a ++ b) <-> mono prev a /\ mono (last_ts prev a) b.
+Proof.
+  induction a as [|o a IH]; intros b prev; cbn [app mono last_ts]; [tauto|].
+  destruct o; [|tauto]. rewrite IH. tauto.
+Qed.
+
+(* no size rotation fires along the ops *)
+Fixpoint quiet (s : rstate) (ops : list rop) : Prop :=
+  match ops with
+  | [] => True
+  | o :: r => match o with Write _ ts _ cnt => size_rotates c ts cnt s = false | _ => False end /\ quiet (step s o) r
+  end.
+Definition below (hi : N) (ops : list rop) : Prop :=
+  Forall (fun o => match o with Write _ ts _ _ => ts <= hi | _ => False end) ops.
+
+Lemma shares_run : forall ops prev s a hi, Inv c s -> TINV (N.max start prev) s -> mono prev ops ->
+  quiet s ops -> below hi ops -> In a (fs_content lp (fs s)) ->
+  (forall g, pt g -> start < g -> sts a < g -> hi < g) ->
+  In a (fs_content lp (fs (run s ops))).
+Proof.
+  induction ops as [|o ops IH]; intros prev s a hi HI HT HM HQ HB Ha NP; cbn [rot_run fold_left]; auto.
+  destruct o as [id ts wr cnt | wm rm st]; cbn [mono quiet] in HM, HQ; [|destruct HM].
+  destruct HM as [M1 [M2 M3]]. destruct HQ as [Q1 Q2]. inversion HB as [|? ? B1 B2]; subst.
+  assert (Lt : ts < nrt s).
+  { destruct (N.lt_ge_cases ts (nrt s)) as [X|X]; auto. exfalso.
+    destruct (T_live c start pt _ s HT a Ha) as [A1 _].
+    pose proof (T_lt c start pt _ s HT) as A2. pose proof (T_lo c start pt _ s HT) as A3.
+    specialize (NP (nrt s) (T_pt c start pt _ s HT) ltac:(lia) ltac:(lia)). lia. }
+  apply (IH ts) with (hi := hi); auto.
+  - cbn [rot_step]. apply write_log_inv; auto.
+  - cbn [rot_step]. apply (write_tinv strf rtm c strf_nonempty start pt HNA Hover Hfreq (N.max start prev)); auto. lia.
+  - cbn [rot_step]. apply (write_keeps_live strf rtm c strf_nonempty start pt Hfreq (N.max start prev)); auto.
+Qed.
+
+(* C15_name: the suffix of a rotated file is strftime of the instant it was opened *)
+Definition name_ok (s : rstate) : Prop := forall f, In f (tl (dq s)) -> fdt f = suffix strf c (g_open f).
+
+Lemma bump_gopen : forall sfx f, g_open (bump c sfx f) = g_open f.
+Proof. intros. unfold bump. destruct (_ || _); auto. destruct (comp_empty _); auto. Qed.
+
+Lemma rotate_name_ok : forall ts s, Inv c s -> name_ok s -> name_ok (rotate_files strf c ts s).
+Proof.
+  intros ts s HI HN. destruct (rot_fires c s) eqn:F.
+  2:{ rewrite rotate_noop by auto. auto. }
+  rewrite rotate_fires by auto. intros f Hf.
+  destruct (rotated_tail strf c strf_nonempty ts s f HI Hf) as [f0 [H0 [E _]]]. subst f.
+  rewrite bump_gopen. destruct (I_head c s HI) as [rest [Ed Fr]]. rewrite Ed in H0. destruct H0 as [H0|H0].
+  - subst f0. destruct (bump_live strf c strf_nonempty (ots s) (ots s)) as [_ [_ X]]. rewrite X. reflexivity.
+  - rewrite Forall_forall in Fr. destruct (bump_rot strf c strf_nonempty (ots s) f0 (Fr f0 H0)) as [_ [[Y1 [_ Y3]] | [_ Y2]]].
+    + rewrite Y3, <- Y1. apply HN. rewrite Ed; auto.
+    + rewrite Y2. apply HN. rewrite Ed; auto.
+Qed.
+
+Lemma write_name_ok : forall id ts wr cnt s, Inv c s -> name_ok s -> name_ok (write_log strf rtm c id ts wr cnt s).
+Proof.
+  intros id ts wr cnt s HI HN. rewrite write_log_eq. unfold name_ok. cbn [do_append dq].
+  destruct (pre_write_cases strf rtm c ts cnt s) as [[_ E] | [[_ [_ E]] | [_ [_ E]]]]; rewrite E; auto.
+  - cbn [set_nrt dq]. apply rotate_name_ok; auto.
+  - apply rotate_name_ok; auto.
+Qed.
+
+Lemma run_name_ok : forall ops prev s, Inv c s -> name_ok s -> mono prev ops -> name_ok (run s ops).
+Proof.
+  induction ops as [|o ops IH]; intros prev s HI HN HM; cbn [rot_run fold_left]; auto.
+  destruct o as [id ts wr cnt | wm rm st]; cbn [mono] in HM; [|destruct HM].
+  destruct HM as [_ [_ M3]]. apply (IH ts); auto; cbn [rot_step].
+  - apply write_log_inv; auto.
+  - apply write_name_ok; auto.
+Qed.
+
+End Runs.
